@@ -355,6 +355,18 @@ def bbm_models():
 # ---------------------------------------------------------------------------
 # compact, JSON-able network specs (used in work units and replay files)
 # ---------------------------------------------------------------------------
+# a motif-avoidant attractor in a module that is only alive below b=1, next to two converging modules: the attractor lies in
+# the intersection of the incomparable trap spaces {a=1,p=0,b=1,q=0} and {b=1,q=0,y=1} (shape contributed by seeded change C05-w5-1)
+GATED_MAA_BNET = """a, a | p
+p, !a & !p
+b, b | q
+q, !b & !q
+x, (!x & !y & !z) | (!x & y & z) | (x & !y & z) | (x & y & !z)
+y, b & (y | (!x & z))
+z, (y & ((!x & z) | (x & !z))) | !b
+"""
+
+
 def resolve(spec):
     spec = list(spec)
     k = spec[0]
@@ -376,6 +388,9 @@ def resolve(spec):
         net = Net(list(spec[2]), base.tables, base.inputs)
         net.api_order = True
         return net
+    if k == "bnet":  # a network written out in .bnet form (used for a few hand-made shapes that no catalogue contains)
+        from .refmodel import net_from_bnet
+        return net_from_bnet(spec[1])
     if k == "desc":
         d = spec[1]
         return Net(d["names"], d["tables"], d.get("inputs", ()))
